@@ -144,6 +144,21 @@ def rt_type(v):
 INTS = {'usize', 'u8', 'u16', 'u32', 'u64', 'u128', 'isize', 'i8', 'i16', 'i32', 'i64', 'i128', 'int'}
 
 
+_LENIENT_EQ = [{'Path', 'PathBuf'}, {'str', 'String'}, {'slice', 'Vec', 'array'}]
+
+
+def type_compat_lenient(norm, rt):
+    """second-chance matching: the run-time shape of a value does not record how many references / deref
+    coercions the source went through (Deref/AsRef models are transparent), so reference depth and the
+    owned/borrowed flavour of paths, strings and slices are ignored"""
+    a, b = norm.lstrip('&'), rt.lstrip('&')
+    if a == b or a == '*' or b == '?':
+        return True
+    if any(a in g and b in g for g in _LENIENT_EQ):
+        return True
+    return type_compat(a, b)
+
+
 def type_compat(norm, rt):
     if norm == rt:
         return True
@@ -395,6 +410,12 @@ class Program:
         return r
 
     def _find_fn(self, simple, arg_rts, nargs, ret=None, self_base=None, trait=None):
+        cands = self._find_fn2(simple, arg_rts, nargs, ret, self_base, trait, type_compat)
+        if not cands:
+            cands = self._find_fn2(simple, arg_rts, nargs, ret, self_base, trait, type_compat_lenient)
+        return cands
+
+    def _find_fn2(self, simple, arg_rts, nargs, ret, self_base, trait, type_compat):
         cands = []
         for e in self.by_simple.get(simple, ()):
             if len(e.argnorm) != nargs:
@@ -734,18 +755,24 @@ class Interp:
         items = self.prog.const_items.get(simple)
         m = re.match(r'^(.*)::promoted\[(\d+)\]$', name.strip())
         if m:
+            def nrm(x):
+                # turbofish of a generic owner (f::<U>::promoted[1]) leaves an empty path segment once generics are stripped
+                x = strip_generics(x.strip())
+                while '::::' in x:
+                    x = x.replace('::::', '::')
+                return x
             items = [it for it in self.prog.const_items.get('promoted[%s]' % m.group(2), ()) if it[0] == name.strip()]
             if not items:
                 items = [it for it in self.prog.const_items.get('promoted[%s]' % m.group(2), ())
-                         if strip_generics(it[0]) == strip_generics(name.strip())]
+                         if nrm(it[0]) == nrm(name)]
             if not items:
-                sn = strip_generics(name.strip())
+                sn = nrm(name)
                 items = [it for it in self.prog.const_items.get('promoted[%s]' % m.group(2), ())
-                         if sn.endswith('::' + strip_generics(it[0])) or strip_generics(it[0]).endswith('::' + sn)]
+                         if sn.endswith('::' + nrm(it[0])) or nrm(it[0]).endswith('::' + sn)]
             if len(items) != 1:
                 raise Inconclusive('promoted constant %s not found uniquely (%d)' % (name, len(items)))
         if items:
-            cands = [it for it in items if it[0] == name.strip()] or \
+            cands = (items if m else None) or [it for it in items if it[0] == name.strip()] or \
                     [it for it in items if strip_generics(it[0]).split('::')[-1] == simple and
                      (strip_generics(it[0]).endswith(strip_generics(name.strip())) or strip_generics(name.strip()).endswith(strip_generics(it[0])))]
             if len(cands) >= 1:
@@ -1014,8 +1041,10 @@ class Interp:
                         v = ord(v.c)
                     nxt = term[3]
                     if v is not None:
+                        neg = type(v) is int and v < 0
                         for c, t in term[2]:
-                            if c == v:
+                            # negative discriminants (Ordering::Less = -1) are printed as their unsigned bit pattern (255 for i8)
+                            if c == v or (neg and c in (v + 256, v + 65536, v + 2 ** 32, v + 2 ** 64, v + 2 ** 128)):
                                 nxt = t
                                 break
                     if nxt is None:
